@@ -110,6 +110,10 @@ def qs_worker(prop, seed, widx, nworkers, plan, scratch, allow_restart=False, ru
             owner = CLASS2PROP.get(v["class"], prop)
             if prop == "C19" and v["class"] == "R-ttl":
                 owner = "C19"  # a premature drop makes a finished render read as 'progress' again
+            if prop == "C19" and v["class"] == "R-final" and "vanished" in v["message"] and ":render-" in v["message"]:
+                # a live render job the queue no longer finds under its id: its status reads
+                # "waiting for render process" whatever the job does, and 'progress' after it finished
+                owner = "C19"
             if owner != prop:
                 Stats.merge(st["foreign"], {v["class"]: 1})
             else:
